@@ -245,8 +245,15 @@ func c05dedupe(c *core.Ctx) {
 		for _, in := range b.Instrs {
 			switch x := in.(type) {
 			case *ssa.Lookup:
-				if x.CommaOk && strings.Contains(mapIdentity(x.X), "userTypesCollector") {
-					lk = x
+				if strings.Contains(mapIdentity(x.X), "userTypesCollector") {
+					if x.CommaOk {
+						lk = x
+					} else if mt, isMap := x.X.Type().Underlying().(*types.Map); isMap {
+						// a set kept as map[K]bool: the value IS the membership flag
+						if b, isB := mt.Elem().Underlying().(*types.Basic); isB && b.Kind() == types.Bool {
+							lk = x
+						}
+					}
 				}
 			case *ssa.MapUpdate:
 				upd = x
@@ -262,8 +269,19 @@ func c05dedupe(c *core.Ctx) {
 		// find the If on the ok flag
 		for _, b := range f.Blocks {
 			if ifi, isIf := b.Instrs[len(b.Instrs)-1].(*ssa.If); isIf {
-				if ex, isEx := ifi.Cond.(*ssa.Extract); isEx && ex.Tuple == ssa.Value(lk) && ex.Index == 1 {
-					absent := b.Succs[1]
+				cond, absentIdx := ifi.Cond, 1
+				if u, isU := cond.(*ssa.UnOp); isU && u.Op == token.NOT {
+					cond, absentIdx = u.X, 0
+				}
+				isFlag := false
+				if ex, isEx := cond.(*ssa.Extract); isEx && ex.Tuple == ssa.Value(lk) && ex.Index == 1 {
+					isFlag = true
+				}
+				if !lk.CommaOk && cond == ssa.Value(lk) {
+					isFlag = true
+				}
+				if isFlag {
+					absent := b.Succs[absentIdx]
 					if len(absent.Preds) == 1 && (absent == app.Block() || absent.Dominates(app.Block())) && (absent == upd.Block() || absent.Dominates(upd.Block())) {
 						ok = true
 					}
